@@ -138,7 +138,7 @@ def make_objects(spec, cfg_dt_src):
     for i, s in enumerate(spec.get("sources") or []):
         name = s.get("name", f"src{i}")
         sw = make_switch(s.get("switch"), dtm)
-        common = dict(name=name, wave_character=fdtdx.WaveCharacter(wavelength=s.get("wavelength", wl)), switch=sw,
+        common = dict(name=name, wave_character=fdtdx.WaveCharacter(wavelength=s.get("wavelength", wl), phase_shift=float(s.get("phase", 0.0))), switch=sw,
                       static_amplitude_factor=float(s.get("amp", 1.0)))
         prof = make_profile(s.get("profile"), wc)
         if prof is not None:
